@@ -187,8 +187,12 @@ PLANS["C13"].extra.append(_prove_c13_inventory)
 PLANS["C13"].assumptions = list(PLANS["C13"].assumptions) + [
     f"compiled kernel not under contract: {k} ({v})" for k, v in _C13_UNCOVERED.items()]
 
+_MIN_ANN = ["moptipyapps.dynamic_control.controllers.min_ann:" + k for k in (
+    "__min_ann_2d_1o_1", "__min_ann_3d_1o_1", "__min_ann_2d_1o_2", "__min_ann_3d_1o_2", "__min_ann_2d_1o_3",
+    "__min_ann_3d_1o_3")]
 PLANS["C16"] = Plan(
     "C16", "proof",
+    functions=list(_MIN_ANN),
     extra=[contracts.control.prove_c16],
     bounded=[bounded.control.harness_min_ann],
     explanation="every controller kernel and system-equation kernel is read from /repo, evaluated symbolically over the reals and "
@@ -197,10 +201,14 @@ PLANS["C16"] = Plan(
                 "partially linear controllers against 'law of the nearest anchor, first on ties' by z3 non-linear real "
                 "arithmetic per path and anchor; peak controllers and generated ANN programs (captured generator output, per "
                 "architecture) against the network evaluated layer by layer; Stuart-Landau, Lorenz, three-oscillator systems "
-                "against the published equations; constant indices within declared dims; no kernel writes its inputs",
+                "against the published equations; constant indices within declared dims; no kernel writes its inputs; the six "
+                "minimising-network kernels (bracket + golden-section search, real source, arctan uninterpreted) return a "
+                "value inside [-1000, 1000]: bracket points stay on the grid -990 + 10 k (ghost integers), section points "
+                "between x_low and x_high, nextafter never crosses its argument (partial correctness)",
     trusted=["sympy polynomial arithmetic / z3 nlsat", "IEEE arithmetic treated as real arithmetic (kernels use fastmath)",
              "parameter layout of partially linear / peak / ANN controllers: block order as documented in this contract"],
-    assumptions=["min_ann controllers (iterative search): value bounded stand-in only (their memory safety is proved under C13)",
+    assumptions=["min_ann controllers: termination of the search loops is not proved (the bounded harness runs them); floats as "
+                 "reals, arctan total, nextafter(x, +-inf) on the far side of x never",
                  "predefined controllers: formulas not covered (memory safety proved under C13)"],
 )
 
